@@ -30,16 +30,22 @@ def gen_program(r, prop):
     n = r.randint(1, min(8, len(univ) - 2))
     keys = r.sample(univ, n)
     absent = [k for k in univ if k not in keys]
+    absent_in = list(absent)                       # absent and representable in the key dtype (count() batches)
+    bits = int(kdt[1:]) * 8
+    if bits < 64 and not big:                      # absent values that alias a key modulo 2**bits must still be absent
+        absent = absent + [k + (1 << bits) for k in keys[:3]] + [k - (1 << bits) for k in keys[:2]]
+    # TLC's integers are 32-bit: any table whose keys or queries may leave +-2**31 is logged with limb-encoded keys throughout
+    wide = wide or any(abs(v) >= 2 ** 31 - 1 for v in list(univ) + absent)
     enc = (lambda k: limbs(k)) if wide else (lambda k: k)
     kind = "counter" if prop == "C12" else r.choice(["table", "table", "table", "counter", "set"])
-    opts = {"kdt": kdt, "vdt": r.choice(["i8", "i8", "f8"]), "query": r.choice(["list", "array"]), "batch": r.choice(["list", "array"]),
+    opts = {"kdt": kdt, "vdt": r.choice(["i8", "i8", "f8"]), "query": r.choice(["list", "array64"] if bits < 64 else ["list", "array"]), "batch": r.choice(["list", "array"]),
             "npkey": r.random() < 0.3, "vecset": r.random() < 0.5, "omit_zero": r.random() < 0.5}
     # the uint64 / signed-query weakness (KF-C11-2) is exercised only in its listed form: default modulus, python-list queries
     default_mod = r.random() < 0.4
     if kdt == "u8":
         if r.random() < 0.25:
             default_mod, opts["query"], opts["batch"] = True, "list", "array"
-            wide = big = False if not big else big
+            pass
         else:
             opts["query"], opts["batch"] = "array", "array"
             opts["npkey"] = True
@@ -71,18 +77,18 @@ def gen_program(r, prop):
         tk = objs[t - 1].kind
         c = r.random()
         if tk == "set":
-            st = r.choice([["contains", t, some_keys(1, 6, 0.4)], ["containsone", t, enc(r.choice(keys + absent[:3]))]])
+            st = r.choice([["contains", t, some_keys(1, 6, 0.4)], ["containsone", t, enc(r.choice(keys + absent_in[:3]))]])
         elif tk == "counter" and c < 0.55:
             m = r.random()
             if m < 0.1:
                 b = []
             elif m < 0.25:
-                b = [enc(r.choice(absent)) for _ in range(r.randint(1, 6))] if absent else []
+                b = [enc(r.choice(absent_in)) for _ in range(r.randint(1, 6))] if absent_in else []
             elif m < 0.5:
                 k0 = r.choice(keys)
                 b = [enc(k0)] * r.randint(2, 30)
             else:
-                b = some_keys(1, 12, 0.3)
+                b = [enc(r.choice(absent_in)) if (absent_in and r.random() < 0.3) else enc(r.choice(keys)) for _ in range(r.randint(1, 12))]
             st = ["count", t, b]
         elif c < 0.2:
             st = ["getvec", t, some_keys(1, 6, 0.12)]
@@ -114,6 +120,8 @@ def gen_program(r, prop):
             st = [r.choice(["items", "to_dict"]), t]
         if st[0] in ("add", "eq") and objs[st[2] - 1].kind == "set":
             continue
+        if kdt == "u8" and opts["query"] == "list" and st[0] in ("zeros_like", "ones_like", "add"):
+            continue          # derived tables get a python-int modulus: the lossy float comparison path of KF-C11-1 is not exercised (see DESIGN 6)
         res = exec_hash.step(objs, st, opts)
         steps.append(st)
         rec.append({"res": res, "obs": [exec_hash.shadow(x) for x in objs]})
